@@ -179,6 +179,54 @@ pub fn respell(r: &mut Rng, lit: &str) -> String {
     format!("{}{}{}", if neg { "-" } else { "" }, m, es)
 }
 
+/// re-spell a plain decimal literal as an integer significand with an exponent (value unchanged):
+/// `562949953421312.0625` -> `5629499534213120625e-4`, optionally with padding zeros
+/// (`...06250e-5`) or a few of the trailing integer zeros moved into the exponent
+pub fn respell_int(r: &mut Rng, lit: &str) -> String {
+    let (neg, body) = match lit.strip_prefix('-') {
+        Some(b) => (true, b),
+        None => (false, lit),
+    };
+    let (i, f) = body.split_once('.').unwrap_or((body, ""));
+    let mut digits: String = format!("{}{}", i, f);
+    let mut e = -(f.len() as i64);
+    let t = digits.trim_start_matches('0').to_string();
+    if t.is_empty() {
+        return lit.to_string();
+    }
+    digits = t;
+    match r.below(3) {
+        0 => {}
+        1 => {
+            let k = 1 + r.below(3) as usize;
+            digits.push_str(&"0".repeat(k));
+            e -= k as i64;
+        }
+        _ => {
+            while digits.len() > 1 && digits.ends_with('0') && r.chance(2, 3) {
+                digits.pop();
+                e += 1;
+            }
+        }
+    }
+    format!("{}{}e{}", if neg { "-" } else { "" }, digits, e)
+}
+
+/// doubles whose tie with the successor has at most 19 significant decimal digits, a few of them
+/// behind the point (integers of 47..53 bits, optionally scaled by a small power of two)
+pub fn short_tie_base(r: &mut Rng) -> f64 {
+    let bits = 44 + r.below(10);
+    let m = (1u64 << bits) | (r.next() & ((1u64 << bits) - 1));
+    let m = if r.chance(1, 2) { m & !1 } else { m };
+    let x = m as f64;
+    match r.below(4) {
+        0 => x,
+        1 => x / 2.0,
+        2 => x / 8.0,
+        _ => x * 4.0,
+    }
+}
+
 pub fn random_f64_bits(r: &mut Rng) -> f64 {
     match r.below(8) {
         0 => f64::from_bits(r.next() & 0x7FFF_FFFF_FFFF_FFFF),
